@@ -7,6 +7,9 @@ from .. import sweepprops as S
 
 LEVEL = 'proof'
 NEEDS = ['PyRt', 'PyRtLoop', 'TraversalGenLemmas', 'TraversalGenQ', 'TraversalGenQProofs', 'CorrTraversalBase', 'CorrTraversalGenQ', 'CorrTopoSort', 'TopoSort', 'TopoSortProofs', 'SFTopo', 'SubGraph', 'SubGraphProofs', 'Extracted', 'SourceFacts', 'Bridge', 'BridgeProofs', 'Base', 'Digraph', 'DigraphProofs', 'Queries', 'QueriesProofs', 'CorrDag']
+# the code translated from the source on every run: when the translator REFUSES the current source the run falls back to the
+# hand-written model and its correspondence (harness/main.py)
+GEN_SOFT = dict(generated=['TraversalGenQ'], modules=['TraversalGenQ', 'TraversalGenQProofs', 'CorrTraversalGenQ'])
 
 
 def dpe_tokens(g, n):
